@@ -1,8 +1,11 @@
 // Trusted model of the unsafe buffer API (std documentation's safety contract; DESIGN.md 2.4):
-// one uninterpreted predicate "cell is initialised with value v".
-pub uninterp spec fn mu_val<T>(m: MaybeUninit<T>) -> Option<T>;
+// cell state through vstd's MaybeUninit model.
+// (vstd models MaybeUninit<T> by `mem_contents()`: Init(v) or Uninit, and specifies new/uninit/assume_init*; not `write`)
+pub open spec fn mu_val<T>(m: MaybeUninit<T>) -> Option<T> {
+	if m.mem_contents().is_init() { Some(m.mem_contents().value()) } else { None }
+}
 pub assume_specification<T>[ MaybeUninit::<T>::write ](m: &mut MaybeUninit<T>, v: T) -> (r: &mut T)
-	ensures mu_val(*final(m)) == Some(v);
+	ensures final(m).mem_contents() == vstd::raw_ptr::MemContents::Init(v);
 
 pub uninterp spec fn vec_cap<T, A: core::alloc::Allocator>(v: Vec<T, A>) -> nat;
 pub uninterp spec fn vec_spare<T, A: core::alloc::Allocator>(v: Vec<T, A>) -> Seq<MaybeUninit<T>>;
@@ -24,3 +27,9 @@ pub fn vec_with_capacity<T>(n: usize) -> (v: Vec<T>)
 { Vec::with_capacity(n) }
 pub assume_specification<T, A: core::alloc::Allocator>[ Vec::<T, A>::shrink_to_fit ](v: &mut Vec<T, A>)
 	ensures final(v)@ == old(v)@;
+// R23 target: push that is known not to reallocate (len < capacity): capacity unchanged (std guarantee; vstd's push spec is silent)
+#[verifier::external_body]
+pub fn vec_push_within_capacity<T>(v: &mut Vec<T>, x: T)
+	requires old(v)@.len() < vec_cap(*old(v))
+	ensures final(v)@ == old(v)@.push(x), vec_cap(*final(v)) == vec_cap(*old(v))
+{ v.push(x) }
